@@ -1,50 +1,60 @@
 (* C15 — Bulk ingest acknowledges exactly what it stored.
    Statements only; proofs are in SigP.BulkProofs.  The model (SigM.Bulk) follows
-   HandleBulkBody; [b] ranges over ALL bodies (lists of classified segments),
-   [actions (body_lines b)] is the bulk grammar's reading of the body, [handle] the
-   code's response and the documents that reach the store, [store_ok] which indexes
-   accept their batch. *)
+   HandleBulkBody after the fix "bulk response accounting"; [b] ranges over ALL
+   bodies (lists of classified segments), [actions (body_lines b)] is the bulk
+   grammar's reading of the body, [handle] the code's response and the documents that
+   reach the store, [store_ok] which indexes accept their batch.  [handle_prefix] is
+   the code before the fix. *)
 From SigM Require Import Base Bulk.
 From SigP Require Import BaseProofs BulkProofs.
 Open Scope N_scope.
 
-(* ---- one item per action, in request order ----
-   Full statement (FALSE for the code, see _refuted):
-     forall b, length (r_items (handle so b)) = length (actions (body_lines b)).
-   The code breaks out of its ReadLine loop when nothing follows the action line,
-   before it counts the action: the guard is exact (iff). *)
-Theorem C15_one_item_per_action_guarded : forall so b,
-  ends_with_doc (actions (body_lines b)) = true ->
+(* ---- one item per action, in request order: the items are, position by position,
+   what each action deserves on its own ---- *)
+Theorem C15_one_item_per_action : forall so b,
   length (r_items (handle so b)) = length (actions (body_lines b)).
-Proof. exact one_item_per_action_guarded. Qed.
-Print Assumptions C15_one_item_per_action_guarded.
+Proof. exact one_item_per_action. Qed.
+Print Assumptions C15_one_item_per_action.
 
-Theorem C15_one_item_per_action_exact : forall so b,
-  length (r_items (handle so b)) = length (actions (body_lines b))
-  <-> ends_with_doc (actions (body_lines b)) = true.
-Proof. exact one_item_per_action_exact. Qed.
-Print Assumptions C15_one_item_per_action_exact.
+Theorem C15_items_in_request_order : forall so b,
+  r_items (handle so b) = map expected_status (actions (body_lines b)).
+Proof. exact items_are_expected. Qed.
+Print Assumptions C15_items_in_request_order.
 
-(* outside the guard exactly one item is missing: the last action's *)
-Theorem C15_trailing_action_dropped : forall so b,
-  ends_with_doc (actions (body_lines b)) = false ->
-  S (length (r_items (handle so b))) = length (actions (body_lines b)).
-Proof. exact trailing_action_dropped. Qed.
-Print Assumptions C15_trailing_action_dropped.
+(* ---- a malformed, oversized or unknown action affects only its own item:
+   the i-th item is a function of the i-th action alone ---- *)
+Theorem C15_failure_is_local : forall so b i a st,
+  nth_error (actions (body_lines b)) i = Some a ->
+  nth_error (r_items (handle so b)) i = Some st ->
+  st = expected_status a.
+Proof. exact failure_is_local. Qed.
+Print Assumptions C15_failure_is_local.
 
-Theorem C15_one_item_per_action_refuted : exists b,
-  length (r_items (handle all_ok b)) <> length (actions (body_lines b)).
-Proof. exact one_item_per_action_refuted. Qed.
-Print Assumptions C15_one_item_per_action_refuted.
+Theorem C15_success_is_local : forall so b i a st,
+  nth_error (actions (body_lines b)) i = Some a ->
+  nth_error (r_items (handle so b)) i = Some st ->
+  created st = act_ok a.
+Proof. exact success_is_local. Qed.
+Print Assumptions C15_success_is_local.
 
-Example C15_guard_ends_with_doc_satisfiable :
-  ends_with_doc (actions (body_lines w_good)) = true /\ length (actions (body_lines w_good)) = 4%nat.
-Proof. vm_compute. split; reflexivity. Qed.
+(* ---- the errors flag is true iff some item failed ---- *)
+Theorem C15_errors_flag_iff_some_failed : forall so b,
+  r_errors (handle so b) = true <->
+  exists st, In st (r_items (handle so b)) /\ st <> 201.
+Proof. exact errors_flag_iff_some_failed. Qed.
+Print Assumptions C15_errors_flag_iff_some_failed.
+
+(* the whole-request error ("all bulk requests failed") iff no item is created *)
+Theorem C15_all_failed_iff_no_created : forall so b,
+  r_allfailed (handle so b) = true <-> ~ In 201 (r_items (handle so b)).
+Proof. exact all_failed_iff_no_created. Qed.
+Print Assumptions C15_all_failed_iff_no_created.
 
 (* ---- created iff stored exactly once; failed items are not stored ----
-   Full statement (FALSE when a store call fails, see _refuted): the same without
-   the [stores_ok] hypothesis.  [NoDup] says the request's documents are distinct,
-   which is what gives "exactly once" a meaning. *)
+   Full statement (still FALSE when a store call fails, see _refuted; known finding
+   bulk_store_failure_reported_created): the same without the [stores_ok] hypothesis.
+   [NoDup] says the request's documents are distinct, which is what gives "exactly
+   once" a meaning. *)
 Theorem C15_created_iff_stored_guarded : forall so b,
   stores_ok so (actions (body_lines b)) = true ->
   NoDup (flat_map act_doc (actions (body_lines b))) ->
@@ -73,66 +83,31 @@ Print Assumptions C15_created_iff_stored_refuted.
 
 Example C15_guard_stores_ok_satisfiable :
   stores_ok all_ok (actions (body_lines w_good)) = true /\
+  r_items (handle all_ok w_good) = [201; 400; 400; 413; 201; 400] /\
+  r_errors (handle all_ok w_good) = true /\
   r_stored (handle all_ok w_good) = [(1, 1); (2, 2)].
-Proof. vm_compute. split; reflexivity. Qed.
-
-(* ---- the errors flag ----
-   Full statement (FALSE, see _refuted):
-     forall b, r_errors (handle so b) = true <-> exists st, In st items /\ st <> 201.
-   What the flag means for every body: some item has status 400. *)
-Theorem C15_errors_flag_iff_some_failed_guarded : forall so b,
-  no_oversize (actions (body_lines b)) = true ->
-  (r_errors (handle so b) = true <->
-   exists st, In st (r_items (handle so b)) /\ st <> 201).
-Proof. exact errors_flag_iff_some_failed_guarded. Qed.
-Print Assumptions C15_errors_flag_iff_some_failed_guarded.
-
-Theorem C15_errors_flag_iff_some_400 : forall so b,
-  r_errors (handle so b) = true <-> In 400 (r_items (handle so b)).
-Proof. exact errors_flag_iff_some_400. Qed.
-Print Assumptions C15_errors_flag_iff_some_400.
-
-Theorem C15_errors_flag_iff_some_failed_refuted : exists b,
-  r_errors (handle all_ok b) = false /\
-  exists st, In st (r_items (handle all_ok b)) /\ st <> 201.
-Proof. exact errors_flag_iff_some_failed_refuted. Qed.
-Print Assumptions C15_errors_flag_iff_some_failed_refuted.
-
-(* the whole-request error ("all bulk requests failed") iff no item is created *)
-Theorem C15_all_failed_iff_no_created : forall so b,
-  r_allfailed (handle so b) = true <-> ~ In 201 (r_items (handle so b)).
-Proof. exact all_failed_iff_no_created. Qed.
-Print Assumptions C15_all_failed_iff_no_created.
-
-(* ---- a malformed, oversized or unknown action affects only its own item ----
-   Stated as: the i-th item is a function of the i-th action alone.
-   Whether the item says "created" is local for EVERY body; the exact status code
-   (Full statement, FALSE, see _refuted: the same without [no_oversize]) is local
-   when no document is oversize: maxRecordSizeExceeded is never reset, so every
-   later failing item reports 413. *)
-Theorem C15_success_is_local : forall so b i a st,
-  nth_error (actions (body_lines b)) i = Some a ->
-  nth_error (r_items (handle so b)) i = Some st ->
-  created st = act_ok a.
-Proof. exact success_is_local. Qed.
-Print Assumptions C15_success_is_local.
-
-Theorem C15_failure_is_local_guarded : forall so b,
-  no_oversize (actions (body_lines b)) = true ->
-  forall i a st,
-    nth_error (actions (body_lines b)) i = Some a ->
-    nth_error (r_items (handle so b)) i = Some st ->
-    st = expected_status a.
-Proof. exact failure_is_local_guarded. Qed.
-Print Assumptions C15_failure_is_local_guarded.
-
-Theorem C15_failure_is_local_refuted : exists b i a st,
-  nth_error (actions (body_lines b)) i = Some a /\
-  nth_error (r_items (handle all_ok b)) i = Some st /\ st <> expected_status a.
-Proof. exact failure_is_local_refuted. Qed.
-Print Assumptions C15_failure_is_local_refuted.
-
-Example C15_guard_no_oversize_satisfiable :
-  no_oversize (actions (body_lines w_good)) = true /\
-  r_items (handle all_ok w_good) = [201; 400; 400; 201] /\ r_errors (handle all_ok w_good) = true.
 Proof. vm_compute. repeat split; reflexivity. Qed.
+
+(* ---- documentation: the code BEFORE the fix (Bulk.handle_prefix) violated three of
+   the clauses above; the harness keeps generating these bodies (the
+   "regression" streams), so a return of the defects is a VIOLATION with a concrete input ---- *)
+
+(* the loop broke before counting a last action that had no document line *)
+Theorem C15_prefix_one_item_per_action_refuted : exists b,
+  length (r_items (handle_prefix all_ok b)) <> length (actions (body_lines b)).
+Proof. exact prefix_one_item_per_action_refuted. Qed.
+Print Assumptions C15_prefix_one_item_per_action_refuted.
+
+(* 413 items did not set errors *)
+Theorem C15_prefix_errors_flag_iff_some_failed_refuted : exists b,
+  r_errors (handle_prefix all_ok b) = false /\
+  exists st, In st (r_items (handle_prefix all_ok b)) /\ st <> 201.
+Proof. exact prefix_errors_flag_iff_some_failed_refuted. Qed.
+Print Assumptions C15_prefix_errors_flag_iff_some_failed_refuted.
+
+(* maxRecordSizeExceeded was never reset: later failures reported 413 *)
+Theorem C15_prefix_failure_is_local_refuted : exists b i a st,
+  nth_error (actions (body_lines b)) i = Some a /\
+  nth_error (r_items (handle_prefix all_ok b)) i = Some st /\ st <> expected_status a.
+Proof. exact prefix_failure_is_local_refuted. Qed.
+Print Assumptions C15_prefix_failure_is_local_refuted.
